@@ -301,15 +301,6 @@ def main(argv):
         assumptions += ['%s: %s' % (u, x) for x in r.get('assumptions', [])]
         smt_ms += r.get('smt_ms', 0)
         evaluations += r.get('verified_fns', 0)
-        lock = load_lock(u)
-        if a.relock and not r['failed'] and not r['undecided']:
-            os.makedirs(os.path.join(VERIF, 'locks'), exist_ok=True)
-            with open(os.path.join(VERIF, 'locks', u + '.json'), 'w') as f:
-                json.dump({'engine': 'VX', 'obligations': sorted(r['obligations'])}, f, indent=1)
-        elif lock:
-            missing = sorted(set(lock['obligations']) - set(r['obligations']))
-            if missing and not r['undecided']:
-                undecided.append('%s: obligations in the lock file were not generated: %s' % (u, ', '.join(missing[:5])))
     # A failing proof hint (ghost assert / lemma call spliced into a body) is not itself an obligation of the
     # property: the bounded Kani harness of the same function decides whether the code or only the proof broke.
     hint_only = {}
@@ -352,12 +343,6 @@ def main(argv):
         assumptions += ['%s: %s' % (u, x) for x in desc.get('assumptions', [])]
         for fn in desc.get('functions', []):
             functions.append({'name': fn, 'unit': u, 'role': 'under KX contract harness'})
-        lock = load_lock(u)
-        ids = sorted(o['id'] for o in obs)
-        if a.relock and not fl and not und:
-            os.makedirs(os.path.join(VERIF, 'locks'), exist_ok=True)
-            with open(os.path.join(VERIF, 'locks', u + '.' + a.tier + '.json'), 'w') as f:
-                json.dump({'engine': 'KX', 'tier': a.tier, 'obligations': ids}, f, indent=1)
     evaluations += kx_checks
     nx_time = 0.0
     for u in nx_units:
@@ -379,6 +364,20 @@ def main(argv):
                 evaluations += int(m.group(1))
         evaluations += len(obs)
 
+    # ---- obligation lock: an obligation that was generated on the reference tree must still be generated
+    lock_path = os.path.join(VERIF, 'locks', '%s.%s.json' % (a.prop, a.tier))
+    cur_ids = sorted(set(o['id'] for o in all_obs))
+    if a.relock:
+        if not failed and not undecided:
+            os.makedirs(os.path.join(VERIF, 'locks'), exist_ok=True)
+            with open(lock_path, 'w') as f:
+                json.dump({'property': a.prop, 'tier': a.tier, 'obligations': cur_ids}, f, indent=1)
+    elif os.path.exists(lock_path):
+        with open(lock_path) as f:
+            locked = json.load(f)['obligations']
+        lost = sorted(set(locked) - set(cur_ids))
+        if lost and not undecided:
+            undecided.append('obligations listed in %s were not generated on this run (%d, e.g. %s)' % (os.path.relpath(lock_path, VERIF), len(lost), ', '.join(lost[:4])))
     # ---- verdict
     known = load_known()
     violations = []
